@@ -160,18 +160,57 @@ Fixpoint od_set {V} (d : list (Z * V)) (k : Z) (v : V) : list (Z * V) :=
 Definition od_update {V} (d : list (Z * V)) (kvs : list (Z * V)) : list (Z * V) :=
   fold_left (fun a kv => od_set a (fst kv) (snd kv)) kvs d.
 
-(* the loop of WMSServer.map that builds actual_layers (res_range always contains the query here) *)
+(* first loop of WMSServer.map: all_layers, the map layers of every requested name, nothing hidden yet
+   (res_range always contains the query here: renders_query is true, also for the sub layers of a group) *)
 Fixpoint select_map (srv : list (Z * wlayer)) (req : list Z) (acc : list (Z * list Z)) : list (Z * list Z) :=
   match req with
   | [] => acc
   | n :: r =>
     match assoc n srv with
     | None => select_map srv r acc
-    | Some w =>
-      let acc := if w_is_opaque w then [] else acc in
-      select_map srv r (od_update acc (w_map_layers w))
+    | Some w => select_map srv r (od_update acc (w_map_layers w))
     end
   end.
+
+(* requested_layers of that loop: (layer, names of its map layers) *)
+Fixpoint requested_layers (srv : list (Z * wlayer)) (req : list Z) : list (wlayer * list Z) :=
+  match req with
+  | [] => []
+  | n :: r =>
+    match assoc n srv with
+    | None => requested_layers srv r
+    | Some w => (w, map fst (w_map_layers w)) :: requested_layers srv r
+    end
+  end.
+
+(* all_layers after filter_actual_layers, as a dictionary name -> (limited_to of the wrappers, sources) *)
+Definition fdict := list (Z * (option Z * list Z)).
+
+Definition to_fdict (fl : list (Z * option Z * list Z)) : fdict :=
+  map (fun e => (fst (fst e), (snd (fst e), snd e))) fl.
+
+Definition of_fdict (d : fdict) : list (Z * option Z * list Z) :=
+  map (fun e : Z * (option Z * list Z) => (fst e, fst (snd e), snd (snd e))) d.
+
+Definition is_some {A} (o : option A) : bool := match o with Some _ => true | None => false end.
+
+(* `permitted = [name for name in layer_names if name in all_layers]` *)
+Definition permitted_names (d : fdict) (names : list Z) : list Z :=
+  filter (fun n => is_some (assoc n d)) names.
+
+(* `restricted`: an entry of the layer was removed, or one is wrapped in LimitedLayer *)
+Definition restricted (d : fdict) (names : list Z) : bool :=
+  negb (Nat.eqb (length (permitted_names d names)) (length names))
+  || existsb (fun n => match assoc n d with Some (Some _, _) => true | _ => false end) (permitted_names d names).
+
+(* body of the second loop of WMSServer.map: only a completely permitted opaque layer hides what is below *)
+Definition prune_step (d : fdict) (wl : wlayer * list Z) (acc : fdict) : fdict :=
+  let '(w, names) := wl in
+  let acc := if negb (restricted d names) && w_is_opaque w then [] else acc in
+  fold_left (fun a n => match assoc n d with Some v => od_set a n v | None => a end) (permitted_names d names) acc.
+
+Definition prune (d : fdict) (rq : list (wlayer * list Z)) : fdict :=
+  fold_left (fun acc wl => prune_step d wl acc) rq [].
 
 (* the loop of WMSServer.featureinfo; None = 'layer is not queryable' *)
 Fixpoint select_info (srv : list (Z * wlayer)) (req : list Z) (acc : list (Z * list Z))
@@ -202,23 +241,25 @@ Inductive wms_out :=
 | W_403
 | W_ok (rl : list rentry) (cov : option Z).   (* render / info list in order, global clip coverage *)
 
-(* layer names handed to the callback: actual_layers.keys() *)
+(* layer names handed to the callback: all_layers.keys() (also the layers an opaque layer will hide) *)
 Definition wms_map_cbarg (tree : list wlayer) (req : list Z) : list Z :=
   map fst (select_map (server_layers tree) req []).
 
-(* WMSServer.map up to the render list *)
+(* WMSServer.map up to the render list: collect, authorize, filter, then skip what an opaque layer hides *)
 Definition wms_map (tree : list wlayer) (req : list Z) (cb : option cbres) : wms_out :=
   let srv := server_layers tree in
   if negb (all_known srv req) then W_unknown
   else
-    let actual := select_map srv req [] in
+    let all := select_map srv req [] in
+    let rq := requested_layers srv req in
     match authorized_layers Ft_map cb with
     | AZ_401 => W_401
-    | AZ_all => W_ok (flatten_entries (map (fun e => (fst e, None, snd e)) actual)) None
+    | AZ_all =>
+      W_ok (flatten_entries (of_fdict (prune (to_fdict (map (fun e => (fst e, None, snd e)) all)) rq))) None
     | AZ_some auth cov =>
-      match filter_actual auth req actual with
+      match filter_actual auth req all with
       | None => W_403
-      | Some fl => W_ok (flatten_entries fl) cov
+      | Some fl => W_ok (flatten_entries (of_fdict (prune (to_fdict fl) rq))) cov
       end
     end.
 
